@@ -268,6 +268,11 @@ func gen(a Args, out *Out) {
 				if big && rng.Bool() {
 					op = Ints(8, int64(rng.Range(1, capacity+8)))
 				}
+				if rng.Chance(1, 12) {
+					// zero and negative capacities: everything leaves, later puts are evicted at once
+					op = Ints(8, int64(rng.Range(-2, 0)))
+					out.Count("resize-nonpositive")
+				}
 				resizes++
 			case d < 95:
 				op = Ints(9)
